@@ -12,7 +12,9 @@ to satisfy, so a difference is a violation of the property on the implementation
 """
 from __future__ import annotations
 
+import contextlib
 import inspect
+import io
 import logging
 import os
 import warnings
@@ -28,11 +30,15 @@ from harness.lib import Family, Verdict, drive
 
 logging.getLogger().setLevel(logging.ERROR)
 
-RULE = ("every public method of tensor/sptensor/ktensor/ttensor/sumtensor/tenmat/sptenmat found by introspection and "
-        "cp_als/cp_apr/tucker_als/hosvd/gcp_opt, each on small operands (orders 1..4, singleton modes, F/C/strided "
-        "layouts for constructor arguments, identity / singleton-moving / general permutations, size-preserving "
-        "reshapes, copy=True/False); non-trivial = the call succeeded and returned or changed at least one array; "
-        "distinct = distinct case hash")
+RULE = ("every public method of tensor/sptensor/ktensor/ttensor/sumtensor/tenmat/sptenmat found by introspection, the "
+        "pyttb_utils helpers and module-level constructors, and cp_als/cp_apr/tucker_als/hosvd/gcp_opt over their option "
+        "space (init ktensor/list/random/nvecs, optdims strict subsets, dimorder permutations, fixsigns, three cp_apr "
+        "algorithms with zero rows, ranks/dimorder/sequential, mask, optimizer and sampler objects), each on small "
+        "operands (orders 1..4, singleton modes, F/C/strided layouts for constructor arguments). Every operation that "
+        "takes a mode order, mode subset or mode split is swept over the identity, EVERY order/split that only relocates "
+        "singleton modes (where the model predicts a view unless the code copies), layout-changing orders, and "
+        "size-preserving reshapes, with copy=True/False; every caller-supplied object is snapshotted bit for bit; "
+        "non-trivial = the call succeeded and returned or changed at least one array; distinct = distinct case hash")
 ASSUMPTIONS = [
     "the classification of NumPy calls into view / fresh / in-place write used by the heap model (checked on every "
     "run by the 'numpy_prims' family against np.shares_memory, strides and contiguity flags)",
@@ -167,6 +173,22 @@ def build(s):
         if "cdims" in s:
             return build(s["sptensor"]).to_sptenmat(np.array(s["rdims"], dtype=int), np.array(s["cdims"], dtype=int))
         return build(s["sptensor"]).to_sptenmat(np.array(s["rdims"], dtype=int))
+    if t == "sampler":
+        from pyttb.gcp import samplers as SM
+        data = build(s["data"])
+        kw = {"max_iters": 4}
+        if s.get("kind") == "uniform":
+            kw.update(function_sampler=SM.Samplers.UNIFORM, function_samples=6,
+                      gradient_sampler=SM.Samplers.UNIFORM, gradient_samples=6)
+        elif s.get("kind") == "stratified":
+            cnt = SM.StratifiedCount(2, 3)
+            kw.update(function_sampler=SM.Samplers.STRATIFIED, function_samples=cnt,
+                      gradient_sampler=SM.Samplers.STRATIFIED, gradient_samples=cnt)
+        elif s.get("kind") == "semistrat":
+            cnt = SM.StratifiedCount(2, 3)
+            kw.update(function_sampler=SM.Samplers.STRATIFIED, function_samples=cnt,
+                      gradient_sampler=SM.Samplers.SEMISTRATIFIED, gradient_samples=cnt)
+        return SM.GCPSampler(data, **kw)
     if t == "objective":
         from pyttb.gcp.handles import Objectives
         return getattr(Objectives, s["name"])
@@ -267,6 +289,10 @@ def walk(obj, path, out, depth=0):
     elif isinstance(obj, dict):
         for k in sorted(obj, key=str):
             walk(obj[k], _j(path, str(k)), out, depth + 1)
+    elif type(obj).__module__.startswith("pyttb.") and hasattr(obj, "__dict__") and not callable(obj):
+        # sampler / optimizer objects handed to an algorithm: every array they hold
+        for k in sorted(vars(obj)):
+            walk(vars(obj)[k], _j(path, k), out, depth + 1)
     return out
 
 
@@ -356,7 +382,7 @@ def observe(c):
     try:
         with warnings.catch_warnings():
             warnings.simplefilter("ignore")
-            with np.errstate(all="ignore"):
+            with np.errstate(all="ignore"), contextlib.redirect_stdout(io.StringIO()):
                 result = resolve(c, recv)(*args, **kwargs)
     except Exception as e:  # noqa: BLE001
         obs["reject"] = f"{type(e).__name__}: {str(e)[:120]}"
@@ -1219,73 +1245,140 @@ def utils_cases(rng, tier):
 
 def alg_cases(rng, tier):
     out = []
-    for shape in ([[3, 4, 2]] if tier == "quick" else [[3, 4, 2], [4, 3], [2, 3, 2, 2]]):
-        out += _alg_cases(rng, shape)
+    for shape in ([[3, 4, 2]] if tier == "quick" else [[3, 4, 2], [4, 3], [2, 3, 2, 2], [3, 1, 2]]):
+        out += _alg_cases(rng, shape, tier)
     return out
 
 
-def _alg_cases(rng, shape):
+AF = {"cls": "alg", "method": "fresh", "params": {}, "auto": "results"}
+
+
+def _ainit(m, views):
+    return {"cls": "alg", "method": "returns_init", "params": {"m": m}, "auto": "alg_init", "views": views}
+
+
+def _strict_subsets(rng, N, tier):
+    import itertools
+    subs = [list(c) for k in range(1, N) for c in itertools.combinations(range(N), k)]
+    if tier == "quick" and len(subs) > 6:
+        subs = rng.sample(subs, 6)
+    return subs
+
+
+def _alg_cases(rng, shape, tier):
+    """The option space of the five entry points.  Every caller-supplied object (data, initial
+    guess, option arrays, sampler and optimizer objects) is an operand: snapshotted bit for bit
+    and compared with every returned array."""
     out = []
     N = len(shape)
     R = 2
-    rot = list(range(1, N)) + [0]
-    datas = [("tensor", Tpos(rng, shape), 1), ("sptensor", Spos(rng, shape), 2)]
-    AF = {"cls": "alg", "method": "fresh", "params": {}, "auto": "results"}
+    ident = list(range(N))
+    rot = ident[1:] + ident[:1]
+    rev = ident[::-1]
+    dense, sparse = Tpos(rng, shape), Spos(rng, shape)
+    datas = [("tensor", dense, 1), ("sptensor", sparse, 2)]
 
-    def ainit(m, with_views):
-        return {"cls": "alg", "method": "returns_init", "params": {"m": m}, "auto": "alg_init", "views": with_views}
+    def guess():  # columns are not unit-norm, weights not one
+        return Kspec(rng, shape, R, pos=True)
 
+    common = {"maxiters": py(2), "printitn": py(0)}
+    # ---- cp_als ------------------------------------------------------------------------------
     for dn, X, m in datas:
-        K0 = Kspec(rng, shape, R, pos=True)
-        common = {"maxiters": py(2), "printitn": py(0)}
-        # cp_als --------------------------------------------------------------------------------
-        out.append(case("alg", "cp_als", f"{dn}/random", None, [X, py(R)], dict(common), AF, "pure"))
-        out.append(case("alg", "cp_als", f"{dn}/nvecs", None, [X, py(R)], dict(common, init=py("nvecs")), AF, "pure"))
-        out.append(case("alg", "cp_als", f"{dn}/init", None, [X, py(R)], dict(common, init=K0), ainit(m, []), "pure"))
-        out.append(case("alg", "cp_als", f"{dn}/init+dimorder", None, [X, py(R)],
-                        dict(common, init=K0, dimorder=iarr(rot), optdims=arr([1, N], list(range(N)), "i")),
-                        ainit(m, ["2.params.dimorder", "2.params.optdims"]), "pure"))
-        out.append(case("alg", "cp_als", f"{dn}/init/nofixsigns", None, [X, py(R)], dict(common, init=K0, fixsigns=py(False)),
-                        ainit(m, []), "pure"))
-        # cp_apr --------------------------------------------------------------------------------
-        Kz = Kspec(rng, shape, R, pos=True)
+        out.append(case("alg", "cp_als", f"{dn}/random", None, [X, py(R)], dict(common), AF))
+        out.append(case("alg", "cp_als", f"{dn}/nvecs", None, [X, py(R)], dict(common, init=py("nvecs")), AF))
+        out.append(case("alg", "cp_als", f"{dn}/random/optdims", None, [X, py(R)], dict(common, optdims=iarr([0])),
+                        _ainit(m, ["2.params.optdims"])))
+        out.append(case("alg", "cp_als", f"{dn}/init", None, [X, py(R)], dict(common, init=guess()), _ainit(m, [])))
+        for k, od in enumerate(_strict_subsets(rng, N, tier)):
+            # held-fixed modes: the caller's factor matrices must not be rescaled or rebound
+            kw = dict(common, init=guess())
+            views = []
+            do = [ident, rot, rev][k % 3]
+            if k % 2 == 0:
+                kw["dimorder"] = iarr(do)
+                views.append("2.params.dimorder")
+                kw["optdims"] = iarr(od)
+                views.append("2.params.optdims")
+            else:
+                kw["optdims"] = py(od)
+                kw["dimorder"] = py(do)
+            if k % 3 == 1:
+                kw["fixsigns"] = py(False)
+            out.append(case("alg", "cp_als", f"{dn}/init/optdims-subset{len(od)}", None, [X, py(R)], kw, _ainit(m, views)))
+        for do in (rot, rev):
+            out.append(case("alg", "cp_als", f"{dn}/init/dimorder", None, [X, py(R)],
+                            dict(common, init=guess(), dimorder=iarr(do), optdims=arr([1, N], ident, "i")),
+                            _ainit(m, ["2.params.dimorder", "2.params.optdims"])))
+        out.append(case("alg", "cp_als", f"{dn}/init/nofixsigns", None, [X, py(R)], dict(common, init=guess(), fixsigns=py(False)),
+                        _ainit(m, [])))
+    if N >= 2:
+        TT = TTspec(rng, shape)
+        out.append(case("alg", "cp_als", "ttensor/init", None, [TT, py(R)], dict(common, init=guess(), optdims=iarr([N - 1])),
+                        _ainit(1 + N, ["2.params.optdims"])))
+        ST = {"t": "sumtensor", "parts": [Tpos(rng, shape), Kspec(rng, shape, 2, pos=True)]}
+        out.append(case("alg", "cp_als", "sumtensor/init", None, [ST, py(R)], dict(common, init=guess(), optdims=py([0])),
+                        _ainit(1 + 1 + N, [])))
+    # ---- cp_apr ------------------------------------------------------------------------------
+    for dn, X, m in datas:
+        Kz = guess()
         Kz["factors"][0][1] = [0] * R  # an all-zero row in the first factor
+        Kz2 = guess()
+        Kz2["factors"][N - 1][0] = [0] * R
         for algo in ("mu", "pdnr", "pqnr"):
             kw = {"algorithm": py(algo), "maxiters": py(2), "printitn": py(0), "printinneritn": py(0)}
-            out.append(case("alg", "cp_apr", f"{dn}/{algo}/random", None, [X, py(R)], dict(kw), AF, "pure"))
-            out.append(case("alg", "cp_apr", f"{dn}/{algo}/init", None, [X, py(R)], dict(kw, init=K0), ainit(m, []), "pure"))
-            out.append(case("alg", "cp_apr", f"{dn}/{algo}/init-zero-row", None, [X, py(R)], dict(kw, init=Kz), ainit(m, []), "pure"))
-        # gcp_opt -------------------------------------------------------------------------------
-        obj = {"t": "objective", "name": "GAUSSIAN"}
-        opt = {"t": "optimizer", "name": "LBFGSB" if dn == "tensor" else "Adam"}
-        gk = {"printitn": py(0)}
-        out.append(case("alg", "gcp_opt", f"{dn}/random", None, [X, py(R), obj, opt], dict(gk), AF, "pure"))
-        out.append(case("alg", "gcp_opt", f"{dn}/ktensor", None, [X, py(R), obj, opt], dict(gk, init=Kspec(rng, shape, R, pos=True)), AF, "pure"))
-        out.append(case("alg", "gcp_opt", f"{dn}/list", None, [X, py(R), obj, opt],
-                        dict(gk, init=lst([mat(rng, d, R) for d in shape])), AF, "pure"))
-        if dn == "tensor":
-            W = {"t": "tensor", "shape": shape, "data": [1 if i % 3 else 0 for i in range(gen.numel(shape))]}
-            out.append(case("alg", "gcp_opt", "tensor/mask", None, [X, py(R), obj, opt], dict(gk, mask=W), AF, "pure"))
-            out.append(case("alg", "gcp_opt", "tensor/adam", None, [X, py(R), obj, {"t": "optimizer", "name": "Adam"}],
-                            dict(gk, init=Kspec(rng, shape, R, pos=True)), AF, "pure"))
-    # dense-only algorithms
+            out.append(case("alg", "cp_apr", f"{dn}/{algo}/random", None, [X, py(R)], dict(kw), AF))
+            out.append(case("alg", "cp_apr", f"{dn}/{algo}/init", None, [X, py(R)], dict(kw, init=guess()), _ainit(m, [])))
+            out.append(case("alg", "cp_apr", f"{dn}/{algo}/init-zero-row", None, [X, py(R)], dict(kw, init=Kz), _ainit(m, [])))
+            out.append(case("alg", "cp_apr", f"{dn}/{algo}/init-zero-row-last", None, [X, py(R)],
+                            dict(kw, init=Kz2, precompinds=py(False), inexact=py(False), maxinneriters=py(3)), _ainit(m, [])))
+    # ---- gcp_opt -----------------------------------------------------------------------------
+    obj = {"t": "objective", "name": "GAUSSIAN"}
+    gk = {"printitn": py(0)}
+    for dn, X, m in datas:
+        opts = ["LBFGSB", "Adam", "SGD", "Adagrad"] if dn == "tensor" else ["Adam", "SGD", "Adagrad"]
+        for on in opts:
+            opt = {"t": "optimizer", "name": on}
+            out.append(case("alg", "gcp_opt", f"{dn}/{on}/random", None, [X, py(R), obj, opt], dict(gk), AF))
+            out.append(case("alg", "gcp_opt", f"{dn}/{on}/ktensor", None, [X, py(R), obj, opt], dict(gk, init=guess()), AF))
+            out.append(case("alg", "gcp_opt", f"{dn}/{on}/list", None, [X, py(R), obj, opt],
+                            dict(gk, init=lst([mat(rng, d, R) for d in shape])), AF))
+        kinds = ["uniform"] if dn == "tensor" else ["stratified", "semistrat"]
+        for kd in kinds:
+            smp = {"t": "sampler", "data": X, "kind": kd}
+            out.append(case("alg", "gcp_opt", f"{dn}/sampler-{kd}", None, [X, py(R), obj, {"t": "optimizer", "name": "Adam"}],
+                            dict(gk, init=guess(), sampler=smp), AF))
+    W = {"t": "tensor", "shape": shape, "data": [1 if i % 3 else 0 for i in range(gen.numel(shape))]}
+    out.append(case("alg", "gcp_opt", "tensor/mask", None, [dense, py(R), obj, {"t": "optimizer", "name": "LBFGSB"}],
+                    dict(gk, mask=W), AF))
+    out.append(case("alg", "gcp_opt", "tensor/mask+init", None, [dense, py(R), obj, {"t": "optimizer", "name": "LBFGSB"}],
+                    dict(gk, mask=W, init=guess()), AF))
+    out.append(case("alg", "gcp_opt", "tensor/poisson", None,
+                    [dense, py(R), {"t": "objective", "name": "POISSON"}, {"t": "optimizer", "name": "LBFGSB"}],
+                    dict(gk, init=guess()), AF))
+    # ---- tucker_als, hosvd (dense data) --------------------------------------------------------
     X = Tspec(rng, shape)
-    out.append(case("alg", "tucker_als", "random", None, [X, py([2] * N)], {"maxiters": py(2), "printitn": py(0)}, AF, "pure"))
-    out.append(case("alg", "tucker_als", "rank-array", None, [X, iarr([2] * N)], {"maxiters": py(2), "printitn": py(0)}, AF, "pure"))
-    U0 = lst([mat(rng, d, 2) for d in shape])
-    out.append(case("alg", "tucker_als", "init", None, [X, py(2)], {"maxiters": py(2), "printitn": py(0), "init": U0},
-                    {"cls": "alg", "method": "returns_init", "params": {"m": 1}, "auto": "alg_init", "views": []}, "pure"))
-    out.append(case("alg", "tucker_als", "init+dimorder", None, [X, py(2)],
-                    {"maxiters": py(2), "printitn": py(0), "init": U0, "dimorder": iarr(rot)},
-                    {"cls": "alg", "method": "returns_init", "params": {"m": 1}, "auto": "alg_init", "views": ["2.params.3"]}, "pure"))
-    out.append(case("alg", "hosvd", "tol", None, [X, py(0.5)], {"verbosity": py(0)}, AF, "pure"))
-    out.append(case("alg", "hosvd", "ranks", None, [X, py(0.5)], {"verbosity": py(0), "ranks": iarr([0, 2] + [0] * (N - 2))}, AF, "pure"))
-    out.append(case("alg", "hosvd", "ranks2d+dimorder", None, [X, py(0.1)],
-                    {"verbosity": py(0), "ranks": arr([1, N], [2, 0] + [1] * (N - 2), "i"), "dimorder": iarr(rot), "sequential": py(False)}, AF, "pure"))
-    TT = TTspec(rng, shape)
-    out.append(case("alg", "cp_als", "ttensor/init", None, [TT, py(R)],
-                    {"maxiters": py(2), "printitn": py(0), "init": Kspec(rng, shape, R, pos=True)},
-                    {"cls": "alg", "method": "returns_init", "params": {"m": 1 + N}, "auto": "alg_init", "views": []}, "pure"))
+    rk = [min(2, d) for d in shape]
+    tk = {"maxiters": py(2), "printitn": py(0)}
+    out.append(case("alg", "tucker_als", "random", None, [X, py(rk)], dict(tk), AF))
+    out.append(case("alg", "tucker_als", "rank-array", None, [X, iarr(rk)], dict(tk), AF))
+    out.append(case("alg", "tucker_als", "nvecs", None, [X, iarr(rk)], dict(tk, init=py("nvecs")), AF))
+    orders = [ident, rot, rev] if tier == "quick" else _all_orders(rng, N)
+    for do in orders:
+        U0 = lst([mat(rng, d, r) for d, r in zip(shape, rk)])
+        out.append(case("alg", "tucker_als", "init+dimorder", None, [X, iarr(rk)], dict(tk, init=U0, dimorder=iarr(do)),
+                        _ainit(1, ["2.params.3"])))
+        out.append(case("alg", "tucker_als", "random+dimorder", None, [X, py(rk)], dict(tk, dimorder=py(do)), AF))
+    out.append(case("alg", "tucker_als", "init", None, [X, iarr(rk)], dict(tk, init=lst([mat(rng, d, r) for d, r in zip(shape, rk)])),
+                    _ainit(1, [])))
+    hk = {"verbosity": py(0)}
+    out.append(case("alg", "hosvd", "tol", None, [X, py(0.5)], dict(hk), AF))
+    out.append(case("alg", "hosvd", "tol/nonsequential", None, [X, py(0.1)], dict(hk, sequential=py(False)), AF))
+    for do in orders:
+        out.append(case("alg", "hosvd", "ranks+dimorder", None, [X, py(0.5)],
+                        dict(hk, ranks=iarr([0] + rk[1:]), dimorder=iarr(do)), AF))
+        out.append(case("alg", "hosvd", "ranks2d+dimorder/nonsequential", None, [X, py(0.1)],
+                        dict(hk, ranks=arr([1, N], rk[:-1] + [0], "i"), dimorder=arr([1, N], do, "i"), sequential=py(False)), AF))
+    out.append(case("alg", "hosvd", "ranks-list", None, [X, py(0.5)], dict(hk, ranks=py(rk)), AF))
     return out
 
 
@@ -1319,6 +1412,8 @@ def model_request(c, obs):
         fresh = [n for n in obs["results"] if n not in ininames and n not in views]
         params["flag"] = ",".join(fresh) + ";" + ",".join(ininames) + ";" + ",".join(views)
         params["dims"] = vregs
+        if ini:
+            params["m"] = ini[0]  # the guess's arrays are consecutive operands
     return {"op": "c05_run", "cls": m["cls"], "method": m["method"], "operands": obs["descr"], "params": params}
 
 
